@@ -326,7 +326,7 @@ def doAccountsAdd (s : State) (rec : Nat) : List (Nat × Nat) → Res
   | [] => .ok s
   | (a, p) :: rest =>
     if !(parses a) then .error .badkey
-    else doAccountsAdd { s with accounts := s.accounts.insert a ⟨p, stActive, some s.curKey, [(rec, p)]⟩ } rec rest
+    else doAccountsAdd { s with accounts := s.accounts.insert a ⟨p, stActive, some s.curKey, admitHist s a p rec⟩ } rec rest
 
 def applyAccountsAdd (v : Bool) (s : State) (author rec : Nat) (l : List (Nat × Nat)) : Res :=
   if v && !(canManageAccounts (s.perm author)) then .error .perm
